@@ -860,7 +860,9 @@ class FileDatastore(GenericBaseDatastore[StoredFileInfo]):
         # dataIds returning the same and causing overwrite confusion.
         template.validateTemplate(ref)
 
-        location = self.locationFactory.fromPath(template.format(ref), trusted_path=True)
+        # The path is built from user-supplied names (run, data ID values), so
+        # it must be checked to be inside the datastore root.
+        location = self.locationFactory.fromPath(template.format(ref), trusted_path=False)
 
         # Get the formatter based on the storage class
         storageClass = ref.datasetType.storageClass
@@ -1267,7 +1269,9 @@ class FileDatastore(GenericBaseDatastore[StoredFileInfo]):
         # Ingesting a file from outside the datastore.
         # This involves a new name.
         template = self.templates.getTemplate(ref)
-        location = self.locationFactory.fromPath(template.format(ref), trusted_path=True)
+        # The path is built from user-supplied names (run, data ID values), so
+        # it must be checked to be inside the datastore root.
+        location = self.locationFactory.fromPath(template.format(ref), trusted_path=False)
 
         # Get the extension
         ext = srcUri.getExtension()
